@@ -178,7 +178,8 @@ def check_clocks(chk, tu):
     res = unk('result')
     for gen in ('preview1', 'unstable'):
         f = eps['clock_time_get'][gen]
-        for cid in (0, 1, 2, 3, 4, 77):
+        # the clock id is any u32: unknown ids include those whose low 8 / 16 bits are a known id (an id narrowed on its way to the switch)
+        for cid in (0, 1, 2, 3, 4, 77, 0x100, 0x101, 0x10002, 0x80000003, 0xFFFFFF00, 0xFFFFFFFF):
             paths = W.explore_entry(tu, f['name'], lambda it, st: [unk('instance'), cid, unk('precision', 'unsigned long long'),
                                                                  unk('result', 'unsigned int')], lambda: std_table(0), errno_value=5)
             inst = '%s/clock_time_get[id=%d]' % (gen, cid)
